@@ -62,7 +62,11 @@ fn build_and_scan(k: usize, input: &str) -> Result<Obs, String> {
 }
 
 fn thread_actions(t: usize, shared: &scnr::Scanner) -> Vec<Result<Obs, String>> {
-    let input = "abxabbcxa";
+    // a different text per thread: the threads ask the shared character-class predicate different questions
+    let base = "abxabbcxa";
+    let rot = t % base.len();
+    let input_owned = format!("{}{}", &base[rot..], &base[..rot]);
+    let input: &str = &input_owned;
     let mut out = Vec::new();
     for step in 0..3 {
         let k = (t + 2 * step + 1) % 7;
